@@ -4,7 +4,10 @@
 
 #![deny(missing_docs)]
 
-use std::{collections::HashMap, path::Path};
+use std::{
+    collections::{BTreeMap, HashMap},
+    path::Path,
+};
 
 use proc_macro::TokenStream;
 use quote::{quote, ToTokens};
@@ -82,7 +85,7 @@ struct MacroSettings {
     #[serde(default)]
     unknown_crates: UnknownPolicy,
     #[serde(default)]
-    crates: HashMap<CrateName, MacroCrateSpec>,
+    crates: BTreeMap<CrateName, MacroCrateSpec>,
     #[serde(default)]
     map_type: MapType,
 
@@ -133,7 +136,7 @@ impl<'de> Deserialize<'de> for MacroCrateSpec {
     }
 }
 
-#[derive(Hash, PartialEq, Eq)]
+#[derive(PartialEq, Eq, PartialOrd, Ord)]
 struct CrateName(String);
 impl<'de> Deserialize<'de> for CrateName {
     fn deserialize<D>(deserializer: D) -> Result<Self, D::Error>
